@@ -148,3 +148,153 @@ func DescribeTV(tv *gpb.TypedValue) string {
 	}
 	return fmt.Sprintf("%v", tv.GetValue())
 }
+
+// TreeJSON is the harness's own RFC 7951 encoder of a whole generated struct: nested
+// objects along the "path" struct tags (every alternative of a leaf, so that compressed
+// key leaves appear both at the entry level and under config), arrays for lists. Names
+// are not module-qualified.
+func TreeJSON(s reflect.Value) map[string]interface{} {
+	out := map[string]interface{}{}
+	if s.Kind() == reflect.Ptr {
+		if s.IsNil() {
+			return out
+		}
+		s = s.Elem()
+	}
+	t := s.Type()
+	put := func(rel string, v interface{}) {
+		cur := out
+		els := splitRel(rel)
+		for i, e := range els {
+			if i == len(els)-1 {
+				cur[e] = v
+				return
+			}
+			nx, ok := cur[e].(map[string]interface{})
+			if !ok {
+				nx = map[string]interface{}{}
+				cur[e] = nx
+			}
+			cur = nx
+		}
+	}
+	for i := 0; i < t.NumField(); i++ {
+		sf := t.Field(i)
+		kind := Classify(sf)
+		if kind == FSkip {
+			continue
+		}
+		f := s.Field(i)
+		alts := splitAlts(sf.Tag.Get("path"))
+		switch kind {
+		case FLeaf:
+			if !IsSet(f) {
+				continue
+			}
+			if v, ok := scalarJSON(f); ok {
+				for _, a := range alts {
+					put(a, v)
+				}
+			}
+		case FLeafList:
+			if !IsSet(f) {
+				continue
+			}
+			var arr []interface{}
+			for j := 0; j < f.Len(); j++ {
+				if v, ok := scalarJSON(f.Index(j)); ok {
+					arr = append(arr, v)
+				}
+			}
+			for _, a := range alts {
+				put(a, arr)
+			}
+		case FContainer:
+			if f.IsNil() {
+				continue
+			}
+			put(alts[0], TreeJSON(f))
+		case FList:
+			if f.IsNil() || f.Len() == 0 {
+				continue
+			}
+			ks := f.MapKeys()
+			sortValues(ks)
+			var arr []interface{}
+			for _, k := range ks {
+				arr = append(arr, TreeJSON(f.MapIndex(k)))
+			}
+			put(alts[0], arr)
+		case FOrderedList:
+			if f.IsNil() {
+				continue
+			}
+			st := OrderedInternals(f)
+			if !st.OK || st.Keys.Len() == 0 {
+				continue
+			}
+			var arr []interface{}
+			for j := 0; j < st.Keys.Len(); j++ {
+				arr = append(arr, TreeJSON(st.ValueMap.MapIndex(st.Keys.Index(j))))
+			}
+			put(alts[0], arr)
+		case FUnkeyedList:
+			if f.IsNil() || f.Len() == 0 {
+				continue
+			}
+			var arr []interface{}
+			for j := 0; j < f.Len(); j++ {
+				arr = append(arr, TreeJSON(f.Index(j)))
+			}
+			put(alts[0], arr)
+		}
+	}
+	return out
+}
+
+func splitRel(rel string) []string {
+	var out []string
+	cur := ""
+	for i := 0; i < len(rel); i++ {
+		if rel[i] == '/' {
+			if cur != "" {
+				out = append(out, cur)
+			}
+			cur = ""
+			continue
+		}
+		cur += string(rel[i])
+	}
+	if cur != "" {
+		out = append(out, cur)
+	}
+	return out
+}
+
+func splitAlts(tag string) []string {
+	var out []string
+	cur := ""
+	for i := 0; i < len(tag); i++ {
+		if tag[i] == '|' {
+			out = append(out, cur)
+			cur = ""
+			continue
+		}
+		cur += string(tag[i])
+	}
+	return append(out, cur)
+}
+
+func sortValues(vs []reflect.Value) {
+	rs := make([]string, len(vs))
+	for i, v := range vs {
+		rs[i] = Render(v)
+	}
+	// insertion sort keeps vs and rs aligned
+	for i := 1; i < len(vs); i++ {
+		for j := i; j > 0 && rs[j] < rs[j-1]; j-- {
+			rs[j], rs[j-1] = rs[j-1], rs[j]
+			vs[j], vs[j-1] = vs[j-1], vs[j]
+		}
+	}
+}
